@@ -34,7 +34,7 @@ CLASSES["PartitionRecords"].invariants = [
 A = "self._aborted_transactions"
 
 
-@contract(MOD + ":PartitionRecords._consume_aborted_up_to", "C08")
+@contract(MOD + ":PartitionRecords._consume_aborted_up_to", ["C08", "C04"])
 def _(c):
     """Java: while (!aborted.isEmpty() && aborted.peek().firstOffset <= offset) abortedProducerIds.add(aborted.poll().producerId)"""
     c.self_("PartitionRecords")
